@@ -362,6 +362,18 @@ Fixpoint store_add (σ : mstore) (d : delivery) : mstore :=
   | (n, ms) :: σ' => if str_eqb n (d_mailbox d) then (n, ms ++ [d]) :: σ' else (n, ms) :: store_add σ' d
   end.
 Definition store_after (σ : mstore) (ds : list delivery) : mstore := fold_left store_add ds σ.
+(** With a mailbox cap (storage.mailboxmsgcap; 0 = none) every delivery evicts the oldest messages
+    of its mailbox beyond the cap (property C08 owns the stores' side of this). *)
+Definition cap_box (cap : nat) (ms : list delivery) : list delivery :=
+  match cap with O => ms | _ => skipn (length ms - cap) ms end.
+Fixpoint store_add_cap (cap : nat) (σ : mstore) (d : delivery) : mstore :=
+  match σ with
+  | [] => [(d_mailbox d, cap_box cap [d])]
+  | (n, ms) :: σ' =>
+      if str_eqb n (d_mailbox d) then (n, cap_box cap (ms ++ [d])) :: σ' else (n, ms) :: store_add_cap cap σ' d
+  end.
+Definition store_after_cap (cap : nat) (σ : mstore) (ds : list delivery) : mstore :=
+  fold_left (store_add_cap cap) ds σ.
 Fixpoint store_get (σ : mstore) (n : str) : list delivery :=
   match σ with
   | [] => []
